@@ -249,6 +249,7 @@ package json
 //@   ensures [C08_J1] parsed > 0 ==> inspected == parsed
 //@   defines (parsed == len(raw) && len(raw) > 0) == parseComplete(raw)
 //@   ensures [C08_G_tok] wsLen(raw) < len(raw) ==> firstToken == tokOf(raw[wsLen(raw)])
+//@   ensures [C08C13_G_tok_blank] wsLen(raw) >= len(raw) ==> firstToken == TokInvalid
 //@   ensures [C08_G_none] queryType == "json" && wsLen(raw) < len(raw) ==> querySatisfied
 //@   ensures [C08C09_G_parse] parsed == pos0(valLen(raw, 0, maxRecursion))
 
